@@ -2011,3 +2011,74 @@ func condMentionsField(cond ssa.Value, owner, field string, depth int) bool {
 	}
 	return false
 }
+
+// reportedVersionGroup: the entry handed to the caller reports the version of the record
+// that was found.  A memtable hit keeps the search key (it carries the REQUESTED version)
+// and records the found version in Entry.Version; cloneEntry must therefore prefer
+// src.Version to the timestamp of src.Key.  Decided by term evaluation: with a found version
+// sv > 0 and a key timestamp ts > sv, every path of cloneEntry stores sv into the copy.
+func reportedVersionGroup(c *Ctx, rule string) {
+	c.Rule(rule, "NoKV.cloneEntry reports the version recorded in src.Version (the record that was found) whenever it is set, never the timestamp of src.Key, which for a memtable hit is the search key; memTable.Get records the version found by the index in Entry.Version")
+	if fn := c.Fn("", "cloneEntry"); fn != nil && len(fn.Params) > 0 {
+		atom := func(v ssa.Value) string {
+			v = Unwrap(v)
+			if u, ok := v.(*ssa.UnOp); ok && u.Op == token.MUL {
+				if fa, ok := u.X.(*ssa.FieldAddr); ok && fa.X == fn.Params[0] {
+					if _, f, _ := FieldOf(fa); f == "Version" {
+						return "sv"
+					}
+				}
+			}
+			if ex, ok := v.(*ssa.Extract); ok && ex.Index == 2 {
+				if call, ok := ex.Tuple.(*ssa.Call); ok && Named("kv.SplitInternalKey")(call.Common()) {
+					return "ts"
+				}
+			}
+			if call, ok := v.(*ssa.Call); ok && Named("kv.ParseTs")(call.Common()) {
+				return "ts"
+			}
+			return ""
+		}
+		env := &TermEnv{Atom: atom, Depth: 1, Facts: []Fact{{"sv", 0, "", 0, 1}, {"ts", 0, "", 0, 1}, {"ts", 0, "sv", 0, 1}}}
+		paths, complete := env.StoredOnPaths(fn, func(st *ssa.Store) bool {
+			fa, ok := st.Addr.(*ssa.FieldAddr)
+			if !ok {
+				return false
+			}
+			if _, isAlloc := fa.X.(*ssa.Alloc); !isAlloc {
+				return false
+			}
+			o, f, _ := FieldOf(fa)
+			return o == "kv.Entry" && f == "Version"
+		})
+		bad, n := "", 0
+		for _, p := range paths {
+			for _, t := range p {
+				n++
+				if !(t.Known && t.Atom == "sv" && t.K == 0) && bad == "" {
+					bad = t.String()
+				}
+			}
+		}
+		switch {
+		case !complete:
+			c.Fail(rule, key(fn, "Version=src.Version-when-set"), fn.Pos(), 1, "cloneEntry has a loop: the selection cannot be evaluated")
+		case n == 0:
+			c.Fail(rule, key(fn, "Version=src.Version-when-set"), fn.Pos(), 1, "cloneEntry no longer fills the copy's Version field")
+		default:
+			c.Decide(bad == "", rule, key(fn, "Version=src.Version-when-set"), fn.Pos(), env.Visited, fmt.Sprintf("with a found version set, every path stores it (%d stores on %d paths evaluated)", n, len(paths)),
+				"with src.Version set (found version sv) and a key timestamp ts > sv, cloneEntry reports "+bad+": a memtable hit is reported with the requested version and the same entry with its real version once flushed")
+		}
+	}
+	if fn := c.Fn("lsm", "memTable.Get"); fn != nil {
+		ok := false
+		for _, st := range fieldStoresIn(fn, false, "kv.Entry", "Version") {
+			if s, isSt := st.(*ssa.Store); isSt {
+				if _, f, isF := FieldOf(Unwrap(s.Val)); isF && f == "Version" {
+					ok = true
+				}
+			}
+		}
+		c.Decide(ok, rule, key(fn, "records:found-version"), fn.Pos(), 1, "the version found by the index is recorded in the entry", "memTable.Get no longer records the version found by the index in Entry.Version")
+	}
+}
